@@ -315,6 +315,13 @@ def replay(ctx, path):
     each stored row are re-run through the harness."""
     info = json.load(open(path))
     table, config = info["table"], info.get("config", "std")
+    if table in ("ints", "serde"):
+        # these tables are cheap and their rows are not individually addressable: re-run the table
+        d, findings, n = run_table(ctx, table, config=config, tier="quick", per=20000)
+        bad = sorted({c for p_, c, r in findings if p_ == ctx.prop})
+        for c in bad[:5]:
+            print("VIOLATION property=%s replay=%s  (clause %s)" % (ctx.prop, path, c))
+        return 1 if bad else 0
     d = ctx.work.fresh("replay_", "d")
     spec = ";".join(",".join(str(x) for x in r) for r in info["rows"])
     rowsfile = ctx.work.fresh("replayrows_", "txt")
